@@ -1,22 +1,33 @@
-(* C04 handlers: in-place edits of a PDU.
+(* C04 handlers: in-place edits of a PDU, byte-level model (Edit/EdBytes.v) with the spec-level
+   model (Edit/EdSpec.v) run alongside.
 
    c04 <proto> <amode> <max> B <type> <code> <mid> { T <bytes> | O <num> <bytes> | D <bytes> }*
-                             E { I <num> <bytes> | U <num> <bytes> | R <num> | K <bytes> }*
+                             E { I <num> <bytes> | U <num> <bytes> | R <num> | K <bytes>
+                               | A <num> <bytes> | D <bytes> }*        (A, D: coap_add_option, coap_add_data)
+                             [ X <mid'> <smax> <bytes> <filter> ]
    c04 <proto> <amode> <max> W <bytes>+
-                             E { ... }*
+                             E { ... }* [ X ... ]
    B: the starting message is built through the API with max_size = <max>;
    W: it is the concatenation of the byte tokens, parsed with coap_pdu_parse, then max_size := <max>.
    <amode> (allocation regime of the C driver) means nothing to the model.
+   X: finally coap_pdu_duplicate with message id <mid'>, a session that allows <smax> bytes,
+      token <bytes> and drop filter <filter> = N (NULL) | - (empty) | n1,n2,...
+   c04x: the same with coap_update_token as pinned (8-bit cast of e_token_length).
 
-   result: start=<rets|P> [dump] { | <0/1> [dump] }* || wire=<bytes> reparse=[dump]          *)
+   result: start=<rets|P> [dump] b=<buffer> <rp> { | <0/1> [dump] b=<buffer> <rp> }*
+           [ || dup=NULL | dup=[dump] b=<buffer> <rp> ] || wire=<bytes> reparse=[dump]
+   <rp> = "rp==" when header + buffer parse back to the message just dumped (type / message id
+   aside on the reliable framings), else rp=[what they parse to | REJECT]
+   The spec-level model runs on the same edits; " SPECDIFF@<i>" is appended to a step whose
+   byte-level result is not the spec-level one (the refinement theorem says: never). *)
 open Model
 open Util
 
-let rec split_at_e acc toks =
+let rec split_at acc key toks =
   match toks with
   | [] -> (List.rev acc, [])
-  | "E" :: tl -> (List.rev acc, tl)
-  | x :: tl -> split_at_e (x :: acc) tl
+  | x :: tl when x = key -> (List.rev acc, tl)
+  | x :: tl -> split_at (x :: acc) key tl
 
 let rec build_ops toks =
   match toks with
@@ -26,52 +37,178 @@ let rec build_ops toks =
   | "D" :: b :: tl -> OpData (bytes_of_tok b) :: build_ops tl
   | _ -> failwith "bad build op"
 
+(* an item of the edit list: an edit proper, or a builder call made in between
+   (A <num> <bytes> = coap_add_option, D <bytes> = coap_add_data) *)
+type item = Ed of ed_op | Bo of bop
+
 let rec edit_ops toks =
   match toks with
   | [] -> []
-  | "I" :: n :: b :: tl -> EdInsert (zi n, bytes_of_tok b) :: edit_ops tl
-  | "U" :: n :: b :: tl -> EdUpdate (zi n, bytes_of_tok b) :: edit_ops tl
-  | "R" :: n :: tl -> EdRemove (zi n) :: edit_ops tl
-  | "K" :: b :: tl -> EdToken (bytes_of_tok b) :: edit_ops tl
+  | "I" :: n :: b :: tl -> Ed (EdInsert (zi n, bytes_of_tok b)) :: edit_ops tl
+  | "U" :: n :: b :: tl -> Ed (EdUpdate (zi n, bytes_of_tok b)) :: edit_ops tl
+  | "R" :: n :: tl -> Ed (EdRemove (zi n)) :: edit_ops tl
+  | "K" :: b :: tl -> Ed (EdToken (bytes_of_tok b)) :: edit_ops tl
+  | "A" :: n :: b :: tl -> Bo (OpOpt (zi n, bytes_of_tok b)) :: edit_ops tl
+  | "D" :: b :: tl -> Bo (OpData (bytes_of_tok b)) :: edit_ops tl
   | _ -> failwith "bad edit op"
 
-let area_size (m : msg) : int =
-  List.length (token_area m.m_token) + List.length (content_area m)
+let cur_proto = ref UDP
+let show_hdr = ref false     (* allocation regime 2 on UDP: the header in memory is shown *)
+let cur_hdr : z list ref = ref []   (* that header, as the model's coap_update_token leaves it *)
 
-let c04 toks =
+(* type and message id are not carried by the reliable framings *)
+let from_code (d : string) : string =
+  if !cur_proto = UDP then d
+  else
+    let rec find i = if i + 3 > String.length d then 0
+      else if String.sub d i 3 = " k=" then i else find (i + 1) in
+    let i = find 0 in String.sub d i (String.length d - i)
+
+(* accessor dump, buffer, and whether header + buffer parse back to the same message *)
+let dump_b (p : ed_bpdu) : string =
+  match ed_abs p with
+  | None -> "[STUCK] b=" ^ hex_of_bytes p.eb_buf ^ " h=-"
+  | Some m ->
+      let mine = dump_msg m in
+      let rp =
+        match parse !cur_proto (header !cur_proto m @ p.eb_buf) with
+        | None -> "rp=[REJECT]"
+        | Some m' ->
+            let theirs = dump_msg m' in
+            if m'.m_code = m.m_code && from_code mine = from_code theirs then "rp=="
+            else Printf.sprintf "rp=[%s]" theirs in
+      let h = if !show_hdr then hex_of_bytes !cur_hdr else "-" in
+      Printf.sprintf "[%s] b=%s h=%s %s" mine (hex_of_bytes p.eb_buf) h rp
+
+let same_as_spec (p : ed_bpdu) (q : pdu) : bool =
+  match ed_abs p with
+  | None -> false
+  | Some m -> m = q.p_msg && p.eb_max = q.p_max
+
+let filter_of s =
+  if s = "N" then None
+  else if s = "-" then Some []
+  else Some (List.map zi (String.split_on_char ',' s))
+
+let c04_gen cast8 toks =
   match toks with
-  | pr :: _amode :: mx :: kind :: rest ->
+  | pr :: amode :: mx :: kind :: rest ->
       let pr = proto_of_string pr in
+      cur_proto := pr;
+      show_hdr := false;
       let mxi = int_of_string mx in
-      let start_toks, edit_toks = split_at_e [] rest in
+      let start_toks, rest2 = split_at [] "E" rest in
+      let edit_toks, dup_toks = split_at [] "X" rest2 in
       let start =
         match kind, start_toks with
         | "B", ty :: code :: mid :: ops ->
+            (* byte-level builder (coap_add_token / coap_add_option / coap_add_data transcribed);
+               the abstract builder of C01 runs alongside *)
             let p0 = pdu_init (zi ty) (zi code) (zi mid) (zi mx) in
-            let rets, p = run_ops p0 (build_ops ops) in
-            let rs = String.concat "" (List.map (fun b -> if b then "1" else "0") rets) in
-            Ok ((if rs = "" then "-" else rs), p)
+            let _, q = run_ops p0 (build_ops ops) in
+            (match ed_b_build (ed_b_init (zi ty) (zi code) (zi mid) (zi mx)) (build_ops ops) with
+             | None -> Error "STUCK"
+             | Some (rets, p) ->
+                 let rs = String.concat "" (List.map (fun b -> if b then "1" else "0") rets) in
+                 Ok ((if rs = "" then "-" else rs), p, q))
         | "W", parts ->
             let bs = List.concat (List.map bytes_of_tok parts) in
-            (match ed_start_wire pr bs (zi mx) with
-             | None -> Error "REJECT"
-             | Some p -> if mxi <> 0 && area_size p.p_msg > mxi then Error "TOOSMALL" else Ok ("P", p))
+            (match ed_b_start_wire pr bs (zi mx), ed_start_wire pr bs (zi mx) with
+             | Some p, Some q ->
+                 if mxi <> 0 && List.length p.eb_buf > mxi then Error "TOOSMALL" else Ok ("P", p, q)
+             | None, None -> Error "REJECT"
+             | _ -> Error "MODEL-INCONSISTENT")
         | _ -> failwith "c04 start" in
       (match start with
        | Error s -> "start=" ^ s
-       | Ok (tag, p0) ->
+       | Ok (tag, p0, q0) ->
            let b = Buffer.create 1024 in
-           Buffer.add_string b (Printf.sprintf "start=%s [%s]" tag (dump_msg p0.p_msg));
-           let p = ref p0 in
+           Buffer.add_string b (Printf.sprintf "start=%s %s" tag (dump_b p0));
+           if not (same_as_spec p0 q0) then Buffer.add_string b " SPECDIFF@start";
+           show_hdr := (amode = "2" && pr = UDP);
+           (* coap_pdu_encode_header before the first edit *)
+           (match ed_abs p0 with Some m0 -> cur_hdr := header UDP m0 | None -> ());
+           let p = ref p0 and q = ref q0 and stuck = ref false and i = ref 0 in
            List.iter (fun e ->
-               let r, p1 = ed_apply !p e in
-               p := p1;
-               Buffer.add_string b (Printf.sprintf " | %d [%s]" (if r then 1 else 0) (dump_msg p1.p_msg)))
+               incr i;
+               if not !stuck then begin
+                 let rb =
+                   match e with
+                   | Ed (EdToken t) when cast8 -> ed_b_token_cast8 !p t
+                   | Ed (EdToken t) when !show_hdr ->
+                       (match ed_b_token_hdr UDP !cur_hdr !p t with
+                        | None -> None
+                        | Some (r, h') -> cur_hdr := h'; Some r)
+                   | Ed e -> ed_b_apply !p e
+                   | Bo o -> ed_b_build_op !p o in
+                 match rb with
+                 | None -> stuck := true; Buffer.add_string b " | STUCK"
+                 | Some (r, p1) ->
+                     let rq, q1 = (match e with Ed e -> ed_apply !q e | Bo o -> apply_op !q o) in
+                     p := p1; q := q1;
+                     Buffer.add_string b (Printf.sprintf " | %d %s" (if r then 1 else 0) (dump_b p1));
+                     if r <> rq || not (same_as_spec p1 q1) then
+                       Buffer.add_string b (Printf.sprintf " SPECDIFF@%d" !i)
+               end)
              (edit_ops edit_toks);
-           let wire = serialize pr !p.p_msg in
-           Buffer.add_string b (Printf.sprintf " || wire=%s reparse=[%s]" (hex_of_bytes wire)
-                                  (dump_parse (parse pr wire)));
+           (match dup_toks with
+            | [mid'; smax; tok; flt] when not !stuck ->
+                let t = bytes_of_tok tok and f = filter_of flt in
+                (match ed_b_dup !p (zi mid') (zi smax) t f with
+                 | None -> Buffer.add_string b " || dup=STUCK"
+                 | Some None ->
+                     Buffer.add_string b " || dup=NULL";
+                     if ed_dup !q (zi mid') (zi smax) t f <> None then
+                       Buffer.add_string b " SPECDIFF@dup"
+                 | Some (Some d) ->
+                     show_hdr := false;      (* the copy has no header yet *)
+                     Buffer.add_string b (" || dup=" ^ dump_b d);
+                     (match ed_dup !q (zi mid') (zi smax) t f with
+                      | Some dq when same_as_spec d dq -> ()
+                      | _ -> Buffer.add_string b " SPECDIFF@dup"))
+            | [] -> ()
+            | _ -> if not !stuck then failwith "c04 dup args");
+           (match ed_abs !p with
+            | None -> Buffer.add_string b " || wire=STUCK reparse=[]"
+            | Some m ->
+                let wire = header pr m @ !p.eb_buf in
+                Buffer.add_string b (Printf.sprintf " || wire=%s reparse=[%s]" (hex_of_bytes wire)
+                                       (dump_parse (parse pr wire))));
            Buffer.contents b)
   | _ -> failwith "c04 args"
 
-let () = register "c04" c04
+(* c04o <max> t=<n> c=<n> m=<n> k=<hex|-> o=<n:hex,...|-> p=<hex|-> <one edit item>
+   The extracted specification as an oracle on a printed accessor dump (all values printed in
+   full): -> <0/1> [dump after].  Used on the implementation's own dumps. *)
+let c04o toks =
+  match toks with
+  | mx :: t :: c :: m :: k :: o :: pl :: item ->
+      let fld s = String.sub s 2 (String.length s - 2) in
+      let opts =
+        if fld o = "-" then []
+        else List.map (fun it ->
+            match String.split_on_char ':' it with
+            | [n; v] -> (zi n, bytes_of_tok v)
+            | _ -> failwith "c04o option") (String.split_on_char ',' (fld o)) in
+      let msg = { m_type = zi (fld t); m_code = zi (fld c); m_mid = zi (fld m);
+                  m_token = bytes_of_tok (fld k); m_opts = opts; m_payload = bytes_of_tok (fld pl) } in
+      let q = { p_msg = msg; p_max = zi mx } in
+      (match edit_ops item with
+       | [Ed e] -> let r, q1 = ed_apply q e in
+           Printf.sprintf "%d [%s]" (if r then 1 else 0) (dump_msg q1.p_msg)
+       | [Bo b] -> let r, q1 = apply_op q b in
+           Printf.sprintf "%d [%s]" (if r then 1 else 0) (dump_msg q1.p_msg)
+       | _ -> failwith "c04o item")
+  | _ -> failwith "c04o args"
+
+(* resize <alloc_size> <max_size> <size> : coap_pdu_check_resize -> <0/1> <new alloc_size> *)
+let resize toks =
+  match toks with
+  | [a; m; sz] ->
+      (match ed_check_resize (zi a) (zi m) (zi sz) with
+       | None -> "STUCK"
+       | Some (r, a') -> Printf.sprintf "%d %d" (if r then 1 else 0) (int_of_z a'))
+  | _ -> failwith "resize args"
+
+let () = register "c04" (c04_gen false); register "c04x" (c04_gen true); register "resize" resize;
+  register "c04o" c04o
